@@ -167,4 +167,841 @@ theorem simplify_sound (F : FloatOps) (cs : Consts) (env : Env) (e e' : Expr)
     · cases h
     · cases h
 
+
+/-! ## 3. The integer operator table, operator by operator, against `specInt`
+
+`binopInt_spec` quantifies over all 2^32 × 2^32 operand pairs of every non-bitwise operator;
+nothing is enumerated, the proofs go through the `toInt` characterisations of the fixed-width
+operations in core. -/
+
+theorem wrap_id {x : Int} (h1 : -2147483648 ≤ x) (h2 : x ≤ 2147483647) : wrap x = x := by
+  unfold wrap; simp only [Int.bmod_def]; omega
+
+theorem toUInt32_toNat (b : Int32) : b.toUInt32.toNat = (b.toInt % 4294967296).toNat := by
+  have h2 : b.toUInt32.toNat = b.toBitVec.toNat := by rw [← Int32.toBitVec_toUInt32 b]; rfl
+  rw [h2, ← Int32.toInt_toBitVec, BitVec.toInt_eq_toNat_bmod]
+  have := b.toBitVec.isLt
+  simp only [Int.bmod_def]; omega
+
+theorem toUInt32_toNat_cast (b : Int32) :
+    (b.toUInt32.toNat : Int) = b.toInt % ((4294967296 : Nat) : Int) := by
+  rw [toUInt32_toNat]; omega
+
+theorem toInt32_toInt (u : UInt32) : u.toInt32.toInt = (u.toNat : Int).bmod (2 ^ 32) := by
+  rw [← Int32.toInt_toBitVec, UInt32.toBitVec_toInt32, BitVec.toInt_eq_toNat_bmod]; rfl
+
+theorem pow32 : (2 : Nat) ^ 32 = 4294967296 := by decide
+theorem two_cast : ((2 : Nat) : Int) = 2 := rfl
+
+/-- `handle_shift_rhs`: the count actually used is the right operand modulo 32 (Euclidean, so
+a negative right operand counts from 32 downwards). -/
+theorem shiftRhs_toNat (b : Int32) : (shiftRhs b).toNat = shiftCount b.toInt := by
+  unfold shiftRhs shiftCount
+  rw [UInt32.toNat_mod, toUInt32_toNat]
+  show _ % 32 = _
+  have : b.toInt.emod 32 = b.toInt % 32 := rfl
+  rw [this]
+  omega
+
+theorem shiftCount_lt (b : Int) : shiftCount b < 32 := by
+  unfold shiftCount
+  have : b.emod 32 = b % 32 := rfl
+  rw [this]; omega
+
+theorem smod32_toNat (x : BitVec 32) (h : x.toNat < 32) : (x.smod 32).toNat = x.toNat := by
+  have hx : x.msb = false := by rw [BitVec.msb_eq_false_iff_two_mul_lt]; omega
+  have hy : (32 : BitVec 32).msb = false := by decide
+  rw [BitVec.toNat_smod, hx, hy]
+  simp only [BitVec.umod_eq, BitVec.toNat_umod]
+  exact Nat.mod_eq_of_lt h
+
+theorem spec_shl (a b : Int32) :
+    (a.toUInt32 <<< shiftRhs b).toInt32
+      = Int32.ofInt (wrap (a.toInt * 2 ^ shiftCount b.toInt)) := by
+  apply eq_ofInt_of_toInt
+  rw [toInt32_toInt, UInt32.toNat_shiftLeft, shiftRhs_toNat,
+    Nat.mod_eq_of_lt (shiftCount_lt b.toInt), Nat.shiftLeft_eq]
+  unfold wrap
+  generalize shiftCount b.toInt = k
+  rw [pow32, Int.natCast_emod, Int.natCast_mul, Int.natCast_pow, two_cast,
+    Int.emod_bmod, ← Int.bmod_mul_bmod, toUInt32_toNat_cast, Int.emod_bmod, Int.bmod_mul_bmod]
+
+theorem spec_shr (a b : Int32) :
+    a >>> (shiftRhs b).toInt32 = Int32.ofInt (a.toInt / 2 ^ shiftCount b.toInt) := by
+  apply eq_ofInt_of_toInt
+  have h : (shiftRhs b).toNat < 32 := by rw [shiftRhs_toNat]; exact shiftCount_lt _
+  rw [← Int32.toInt_toBitVec, Int32.toBitVec_shiftRight, BitVec.toInt_sshiftRight',
+    UInt32.toBitVec_toInt32, smod32_toNat _ h, Int.shiftRight_eq_div_pow, Int32.toInt_toBitVec,
+    Int.natCast_pow, two_cast]
+  show a.toInt / 2 ^ (shiftRhs b).toNat = _
+  rw [shiftRhs_toNat]
+
+theorem spec_ushr (a b : Int32) :
+    (a.toUInt32 >>> shiftRhs b).toInt32
+      = Int32.ofInt (wrap ((a.toInt.emod (2 ^ 32)) / 2 ^ shiftCount b.toInt)) := by
+  apply eq_ofInt_of_toInt
+  rw [toInt32_toInt, UInt32.toNat_shiftRight, shiftRhs_toNat,
+    Nat.mod_eq_of_lt (shiftCount_lt b.toInt), Nat.shiftRight_eq_div_pow]
+  unfold wrap
+  generalize shiftCount b.toInt = k
+  rw [Int.natCast_ediv, Int.natCast_pow, toUInt32_toNat_cast, two_cast]
+  rfl
+
+theorem b2i_ofInt (p : Prop) [Decidable p] :
+    b2i (decide p) = Int32.ofInt (if p then 1 else 0) := by
+  by_cases h : p <;> simp [b2i, h] <;> rfl
+
+/-- **Operator table = machine semantics**, all non-bitwise operators, all operands. -/
+theorem binopInt_spec (op : BinOp) (a b : Int32) (hop : isBitwise op = false) :
+    binopInt op a b = match specInt op a.toInt b.toInt with
+      | some v => .ok (.int (Int32.ofInt v))
+      | none => .err "const evaluation error" := by
+  cases op <;> simp only [isBitwise] at hop <;> try (cases hop)
+  · simp only [binopInt, specInt]; congr 2; apply eq_ofInt_of_toInt; rw [Int32.toInt_add]; rfl
+  · simp only [binopInt, specInt]; congr 2; apply eq_ofInt_of_toInt; rw [Int32.toInt_sub]; rfl
+  · simp only [binopInt, specInt]; congr 2; apply eq_ofInt_of_toInt; rw [Int32.toInt_mul]; rfl
+  · simp only [binopInt, specInt, toInt_eq_zero_iff]
+    split
+    · rfl
+    · congr 2; apply eq_ofInt_of_toInt; rw [Int32.toInt_div]; rfl
+  · simp only [binopInt, specInt, toInt_eq_zero_iff]
+    split
+    · rfl
+    · congr 2; apply eq_ofInt_of_toInt; rw [Int32.toInt_mod]
+  · simp only [binopInt, specInt, Int32.toInt_inj]
+    congr 2; rw [← b2i_ofInt]; congr 1
+  · simp only [binopInt, specInt, Int32.toInt_inj]
+    congr 2
+    by_cases h : a = b <;> simp [h, b2i] <;> rfl
+  · simp only [binopInt, specInt, ← Int32.lt_iff_toInt_lt, b2i_ofInt]
+  · simp only [binopInt, specInt, ← Int32.le_iff_toInt_le, b2i_ofInt]
+  · simp only [binopInt, specInt, GT.gt, ← Int32.lt_iff_toInt_lt, b2i_ofInt]
+  · simp only [binopInt, specInt, GE.ge, ← Int32.le_iff_toInt_le, b2i_ofInt]
+  · simp only [binopInt, specInt, toInt_eq_zero_iff]
+    split <;> simp
+  · simp only [binopInt, specInt, toInt_eq_zero_iff]
+    split <;> simp <;> rfl
+  · simp only [binopInt, specInt, spec_shl]
+  · simp only [binopInt, specInt, spec_shr]
+  · simp only [binopInt, specInt, spec_ushr]
+
+/-- the hypothesis is satisfiable and the statement has content: `7 / 2`, `-7 / 2` (truncation),
+`1 << 33` (count modulo 32), `-8 >> 1` (sign extension), `-1 >>> 28` (zero extension). -/
+example : binopInt .div (-7) 2 = .ok (.int (-3)) ∧ specInt .div (-7) 2 = some (-3) := by decide
+example : binopInt .shl 1 33 = .ok (.int 2) := by decide
+example : binopInt .shr (-8) 1 = .ok (.int (-4)) := by decide
+example : binopInt .ushr (-1) 28 = .ok (.int 15) := by decide
+example : specInt .shl 1 33 = some 2 ∧ specInt .shr (-8) 1 = some (-4)
+    ∧ specInt .ushr (-1) 28 = some 15 := by decide
+example : isBitwise .shl = false := rfl
+
+/-- Division by zero is the only undefined integer operation, and it is an error, not a panic. -/
+theorem binopInt_err_iff (op : BinOp) (a b : Int32) :
+    (∃ c, binopInt op a b = .err c) ↔ ((op = .div ∨ op = .rem) ∧ b = 0) := by
+  cases op <;> simp [binopInt] <;> split <;> simp_all
+
+example : binopInt .rem 5 0 = .err "const evaluation error" := by decide
+
+/-- The bitwise operators act on the 32-bit patterns. -/
+theorem bitwise_spec (a b : Int32) :
+    (∃ r, binopInt .xor a b = .ok (.int r) ∧ r.toBitVec = a.toBitVec ^^^ b.toBitVec) ∧
+    (∃ r, binopInt .band a b = .ok (.int r) ∧ r.toBitVec = a.toBitVec &&& b.toBitVec) ∧
+    (∃ r, binopInt .bor a b = .ok (.int r) ∧ r.toBitVec = a.toBitVec ||| b.toBitVec) :=
+  ⟨⟨_, rfl, Int32.toBitVec_xor a b⟩, ⟨_, rfl, Int32.toBitVec_and a b⟩,
+   ⟨_, rfl, Int32.toBitVec_or a b⟩⟩
+
+example : binopInt .xor 12 10 = .ok (.int 6) ∧ binopInt .band 12 10 = .ok (.int 8)
+    ∧ binopInt .bor 12 10 = .ok (.int 14) := by decide
+
+/-- Unary integer operators: `-x` wraps, `!x` is 1 exactly for `x = 0`, `~x` is `-x-1`
+(which never leaves the range). -/
+theorem unop_int_spec (F : FloatOps) (x : Int32) :
+    unop F .neg (.int x) = .ok (some (.int (Int32.ofInt (wrap (-x.toInt))))) ∧
+    unop F .not (.int x) = .ok (some (.int (if x = 0 then 1 else 0))) ∧
+    unop F .bnot (.int x) = .ok (some (.int (Int32.ofInt (-x.toInt - 1)))) := by
+  refine ⟨?_, ?_, ?_⟩
+  · simp only [unop]; congr 3; apply eq_ofInt_of_toInt; rw [Int32.toInt_neg]; rfl
+  · simp only [unop, b2i]; congr 3; simp
+  · simp only [unop]; congr 3; apply eq_ofInt_of_toInt; rw [Int32.toInt_not]
+    have := range x
+    exact wrap_id (by omega) (by omega)
+
+/-! `i32::MIN` corner cases: `wrapping_div`/`wrapping_rem`/`wrapping_neg` wrap, they do not trap. -/
+theorem div_min_neg_one : binopInt .div Int32.minValue (-1) = .ok (.int Int32.minValue) := by
+  decide
+theorem rem_min_neg_one : binopInt .rem Int32.minValue (-1) = .ok (.int 0) := by decide
+theorem neg_min (F : FloatOps) :
+    unop F .neg (.int Int32.minValue) = .ok (some (.int Int32.minValue)) := by
+  simp only [unop]; congr 3
+example : specInt .div (-2147483648) (-1) = some (-2147483648) := by decide
+example : binopInt .mul 65536 65536 = .ok (.int 0) := by decide
+example : binopInt .add Int32.maxValue 1 = .ok (.int Int32.minValue) := by decide
+
+/-! ## 4. No panic on equal operand types (what the type checker guarantees) -/
+
+/-- operators that exist only on integers: the `uncaught_type_error` arms for floats -/
+def isIntOnly : BinOp → Bool
+  | .lor | .land | .xor | .band | .bor | .shl | .shr | .ushr => true
+  | _ => false
+
+theorem binopInt_no_panic (op : BinOp) (a b : Int32) (s : String) :
+    binopInt op a b ≠ .panic s := by
+  cases op <;> simp only [binopInt] <;> (try split) <;> intro h <;> cases h
+
+theorem binop_no_panic_of_same_type (F : FloatOps) (op : BinOp) (a b : Int32) (s : String) :
+    binop F op (.int a) (.int b) ≠ .panic s :=
+  binopInt_no_panic op a b s
+
+theorem binop_float_panic_iff (F : FloatOps) (op : BinOp) (a b : UInt32) :
+    (∃ s, binop F op (.float a) (.float b) = .panic s) ↔ isIntOnly op = true := by
+  cases op <;> simp [binop, binopFloat, isIntOnly]
+
+/-- Mixed operand types always reach the `uncaught_type_error` arm. -/
+theorem binop_mixed_panics (F : FloatOps) (op : BinOp) (a b : Value) (h : a.ty ≠ b.ty) :
+    binop F op a b = .panic typeErrorSite := by
+  cases a <;> cases b <;> simp_all [binop, Value.ty]
+
+/-- Strings have no binary operators at all. -/
+theorem binop_str_panics (F : FloatOps) (op : BinOp) (a b : String) :
+    binop F op (.str a) (.str b) = .panic typeErrorSite := rfl
+
+example (F : FloatOps) : binop F .shl (.float 0) (.float 0) = .panic typeErrorSite := rfl
+example (F : FloatOps) : binop F .add (.float 1) (.float 2) = .ok (.float (F.add 1 2)) := rfl
+example (F : FloatOps) : binop F .add (.int 1) (.float 2) = .panic typeErrorSite :=
+  binop_mixed_panics F .add _ _ (by decide)
+
+/-! ## 5. The two tree walkers agree
+
+`constEval` (`Evaluator::_const_eval`) and the folding visitor `simplify` are separate pieces of
+code that "must be updated in sync".  Whenever `constEval` produces a value, the visitor folds
+the whole expression to exactly that literal, and the VM evaluates it to that value under every
+register valuation. -/
+
+/-- const table `c0 = 5` -/
+def exCs : Consts := fun n => if n = 0 then some (.int 5) else none
+/-- `c0 + -(2)` -/
+def exE : Expr := .binop .add (.var 0 none) (.unop .neg (.litI 2))
+
+@[simp] theorem toConst_toExpr (v : Value) : v.toExpr.toConst = some v := by cases v <;> rfl
+
+theorem simplify_toExpr (F : FloatOps) (cs : Consts) (v : Value) :
+    simplify F cs v.toExpr = .ok v.toExpr := by cases v <;> rfl
+
+theorem constEval_simplify (F : FloatOps) (cs : Consts) (e : Expr) (v : Value)
+    (h : constEval F cs e = .ok v) : simplify F cs e = .ok v.toExpr := by
+  induction e generalizing v with
+  | litI x => simp only [constEval] at h; injection h with h; subst h; rfl
+  | litF x => simp only [constEval] at h; injection h with h; subst h; rfl
+  | litS x => simp only [constEval] at h; injection h with h; subst h; rfl
+  | reg r s => cases h
+  | var n s =>
+    simp only [constEval] at h
+    simp only [simplify, simplifyNode]
+    split at h
+    · split at h
+      · injection h with h; subst h; simp_all
+      · cases h
+    · cases h
+  | unop op b ih =>
+    simp only [constEval] at h
+    split at h
+    · rename_i bv hb
+      simp only [simplify, ih bv hb, simplifyNode, toConst_toExpr]
+      split at h
+      · rename_i w hw; injection h with h; subst h; simp
+      · cases h
+      · cases h
+      · cases h
+    · cases h
+    · cases h
+  | binop op a b iha ihb =>
+    simp only [constEval] at h
+    split at h
+    · rename_i av ha
+      split at h
+      · rename_i bv hb
+        simp only [simplify, iha av ha, ihb bv hb, simplifyNode, toConst_toExpr, h]
+      · cases h
+      · cases h
+    · cases h
+    · cases h
+  | ternary c l r ihc ihl ihr =>
+    simp only [constEval] at h
+    split at h
+    · rename_i cv hc
+      split at h
+      · rename_i lv hl
+        split at h
+        · rename_i rv hr
+          simp only [simplify, ihc cv hc, ihl lv hl, ihr rv hr, simplifyNode, toConst_toExpr]
+          split at h
+          · split at h <;> injection h with h <;> subst h <;> simp_all
+          · cases h
+        · cases h
+        · cases h
+      · cases h
+      · cases h
+    · cases h
+    · cases h
+
+example (F : FloatOps) : constEval F exCs exE = .ok (.int 3) := rfl
+example (F : FloatOps) : simplify F exCs exE = .ok (.litI 3) :=
+  constEval_simplify F exCs exE (.int 3) rfl
+/-- the converse fails on the sigil operators: folded by neither, rejected by `constEval` -/
+example (F : FloatOps) :
+    constEval F exCs (.unop .sigI (.litI 1)) = .err "const evaluation error"
+    ∧ simplify F exCs (.unop .sigI (.litI 1)) = .ok (.unop .sigI (.litI 1)) := ⟨rfl, rfl⟩
+
+theorem constEval_eq_eval (F : FloatOps) (cs : Consts) (e : Expr) (v : Value)
+    (h : constEval F cs e = .ok v) (env : Env) : eval F cs env e = .ok v := by
+  rw [← simplify_sound F cs env e _ (constEval_simplify F cs e v h), eval_toExpr]
+
+example (F : FloatOps) (env : Env) : eval F exCs env exE = .ok (.int 3) :=
+  constEval_eq_eval F exCs exE (.int 3) rfl env
+/-- ... and here the VM gives a value (`$(1)` is a cast) although `constEval` rejects -/
+example (F : FloatOps) (env : Env) :
+    eval F exCs env (.unop .sigI (.litI 1)) = .ok (.int 1) := rfl
+
+/-! ## 6. One run of the folding pass reaches the fixed point -/
+
+/-- What the node step can return: a literal, the node itself, or (ternary with a literal
+condition) one of the two branches. -/
+theorem simplifyNode_cases (F : FloatOps) (cs : Consts) (e e' : Expr)
+    (h : simplifyNode F cs e = .ok e') :
+    (∃ v : Value, e' = v.toExpr) ∨ e' = e ∨ (∃ c l r, e = .ternary c l r ∧ (e' = l ∨ e' = r)) := by
+  cases e with
+  | litI v => simp [simplifyNode] at h; subst h; exact .inr (.inl rfl)
+  | litF v => simp [simplifyNode] at h; subst h; exact .inr (.inl rfl)
+  | litS v => simp [simplifyNode] at h; subst h; exact .inr (.inl rfl)
+  | reg r s => simp [simplifyNode] at h; subst h; exact .inr (.inl rfl)
+  | var n s =>
+    simp only [simplifyNode] at h
+    split at h
+    · split at h
+      · injection h with h; subst h; exact .inl ⟨_, rfl⟩
+      · cases h
+    · injection h with h; subst h; exact .inr (.inl rfl)
+  | unop op b =>
+    simp only [simplifyNode] at h
+    split at h
+    · split at h
+      · injection h with h; subst h; exact .inl ⟨_, rfl⟩
+      · injection h with h; subst h; exact .inr (.inl rfl)
+      · cases h
+      · cases h
+    · injection h with h; subst h; exact .inr (.inl rfl)
+  | binop op a b =>
+    simp only [simplifyNode] at h
+    split at h
+    · split at h
+      · injection h with h; subst h; exact .inl ⟨_, rfl⟩
+      · cases h
+      · cases h
+    · injection h with h; subst h; exact .inr (.inl rfl)
+  | ternary c l r =>
+    simp only [simplifyNode] at h
+    split at h
+    · split at h <;> injection h with h <;> subst h
+      · exact .inr (.inr ⟨_, _, _, rfl, .inr rfl⟩)
+      · exact .inr (.inr ⟨_, _, _, rfl, .inl rfl⟩)
+    · cases h
+    · injection h with h; subst h; exact .inr (.inl rfl)
+
+/-- The folding pass reaches its fixed point in one run. -/
+theorem simplify_idempotent (F : FloatOps) (cs : Consts) (e e' : Expr)
+    (h : simplify F cs e = .ok e') : simplify F cs e' = .ok e' := by
+  induction e generalizing e' with
+  | litI v => simp [simplify, simplifyNode] at h; subst h; rfl
+  | litF v => simp [simplify, simplifyNode] at h; subst h; rfl
+  | litS v => simp [simplify, simplifyNode] at h; subst h; rfl
+  | reg r s => simp [simplify, simplifyNode] at h; subst h; rfl
+  | var n s =>
+    have h' : simplifyNode F cs (.var n s) = .ok e' := h
+    rcases simplifyNode_cases F cs _ _ h' with ⟨v, rfl⟩ | rfl | ⟨_, _, _, hc, _⟩
+    · exact simplify_toExpr F cs v
+    · exact h
+    · cases hc
+  | unop op b ih =>
+    simp only [simplify] at h
+    split at h
+    · rename_i b' hb
+      rcases simplifyNode_cases F cs _ _ h with ⟨v, rfl⟩ | rfl | ⟨_, _, _, hc, _⟩
+      · exact simplify_toExpr F cs v
+      · simp only [simplify, ih b' hb, h]
+      · cases hc
+    · cases h
+    · cases h
+  | binop op a b iha ihb =>
+    simp only [simplify] at h
+    split at h
+    · rename_i a' ha
+      split at h
+      · rename_i b' hb
+        rcases simplifyNode_cases F cs _ _ h with ⟨v, rfl⟩ | rfl | ⟨_, _, _, hc, _⟩
+        · exact simplify_toExpr F cs v
+        · simp only [simplify, iha a' ha, ihb b' hb, h]
+        · cases hc
+      · cases h
+      · cases h
+    · cases h
+    · cases h
+  | ternary c l r ihc ihl ihr =>
+    simp only [simplify] at h
+    split at h
+    · rename_i c' hc
+      split at h
+      · rename_i l' hl
+        split at h
+        · rename_i r' hr
+          rcases simplifyNode_cases F cs _ _ h with ⟨v, rfl⟩ | rfl | ⟨_, _, _, hc, hlr⟩
+          · exact simplify_toExpr F cs v
+          · simp only [simplify, ihc c' hc, ihl l' hl, ihr r' hr, h]
+          · injection hc with h1 h2 h3; subst h1 h2 h3
+            rcases hlr with rfl | rfl
+            · exact ihl _ hl
+            · exact ihr _ hr
+        · cases h
+        · cases h
+      · cases h
+      · cases h
+    · cases h
+    · cases h
+
+/-- `REG[1] + 2 * 3` folds to `REG[1] + 6`, and that is a fixed point -/
+example (F : FloatOps) :
+    simplify F exCs (.binop .add (.reg 1 none) (.binop .mul (.litI 2) (.litI 3)))
+      = .ok (.binop .add (.reg 1 none) (.litI 6)) := rfl
+example (F : FloatOps) : simplify F exCs (.binop .add (.reg 1 none) (.litI 6))
+    = .ok (.binop .add (.reg 1 none) (.litI 6)) :=
+  simplify_idempotent F exCs (.binop .add (.reg 1 none) (.binop .mul (.litI 2) (.litI 3))) _ rfl
+
+/-! ## 7. Chains of const definitions: fuel, evaluation stack and cache do not matter
+
+`evalConst fuel stack n` is `_get_or_compute` without the cache.  Its *computed values* (the
+`ok` outcomes) depend neither on the fuel, nor on the evaluation stack, nor on a cache. -/
+
+/-- `const c0 = 2; const c1 = c0 + 1; const c2 = c1 * c0; const c3 = c3;` -/
+def exDefs : Nat → Option Expr
+  | 0 => some (.litI 2)
+  | 1 => some (.binop .add (.var 0 none) (.litI 1))
+  | 2 => some (.binop .mul (.var 1 none) (.var 0 none))
+  | 3 => some (.var 3 none)
+  | _ => none
+
+/-- the table after `c0`, `c1` have been computed -/
+def exCache : Consts :=
+  fun n => if n = 0 then some (.int 2) else if n = 1 then some (.int 3) else none
+
+/-- variables (named, not registers) occurring in an expression -/
+def vars : Expr → List Nat
+  | .var n _ => [n]
+  | .unop _ e => vars e
+  | .binop _ a b => vars a ++ vars b
+  | .ternary c l r => vars c ++ vars l ++ vars r
+  | _ => []
+
+/-- `evalConstExpr` is monotone in its oracle for the `ok` outcomes, also across a change of stack. -/
+theorem evalConstExpr_mono (F : FloatOps) (defs : Nat → Option Expr)
+    (rec₁ rec₂ : List Nat → Nat → Outcome Value) (st₁ st₂ : List Nat) (e : Expr)
+    (hrec : ∀ n ∈ vars e, ∀ v, rec₁ st₁ n = .ok v → rec₂ st₂ n = .ok v) (v : Value)
+    (h : evalConstExpr F defs rec₁ st₁ e = .ok v) : evalConstExpr F defs rec₂ st₂ e = .ok v := by
+  induction e generalizing v with
+  | litI x => exact h
+  | litF x => exact h
+  | litS x => exact h
+  | reg r s => cases h
+  | var n s =>
+    simp only [evalConstExpr] at h ⊢
+    split at h
+    · rename_i w hw
+      rw [hrec n (by simp [vars]) w hw]; exact h
+    · cases h
+    · cases h
+  | unop op b ih =>
+    simp only [evalConstExpr] at h ⊢
+    split at h
+    · rename_i bv hb
+      rw [ih (fun n hn => hrec n (by simpa [vars] using hn)) bv hb]; exact h
+    · cases h
+    · cases h
+  | binop op a b iha ihb =>
+    simp only [evalConstExpr] at h ⊢
+    split at h
+    · rename_i av ha
+      split at h
+      · rename_i bv hb
+        rw [iha (fun n hn => hrec n (by simp [vars, hn])) av ha,
+          ihb (fun n hn => hrec n (by simp [vars, hn])) bv hb]; exact h
+      · cases h
+      · cases h
+    · cases h
+    · cases h
+  | ternary c l r ihc ihl ihr =>
+    simp only [evalConstExpr] at h ⊢
+    split at h
+    · rename_i cv hc
+      split at h
+      · rename_i lv hl
+        split at h
+        · rename_i rv hr
+          rw [ihc (fun n hn => hrec n (by simp [vars, hn])) cv hc,
+            ihl (fun n hn => hrec n (by simp [vars, hn])) lv hl,
+            ihr (fun n hn => hrec n (by simp [vars, hn])) rv hr]; exact h
+        · cases h
+        · cases h
+      · cases h
+      · cases h
+    · cases h
+    · cases h
+
+/-- (a) more fuel and a smaller evaluation stack never change a value that was computed. -/
+theorem evalConst_mono (F : FloatOps) (defs : Nat → Option Expr) (k k' : Nat)
+    (st st' : List Nat) (n : Nat) (v : Value) (hk : k ≤ k') (hst : ∀ x ∈ st', x ∈ st)
+    (h : evalConst F defs k st n = .ok v) : evalConst F defs k' st' n = .ok v := by
+  induction k generalizing k' st st' n v with
+  | zero => cases h
+  | succ k ih =>
+    obtain ⟨k'', rfl⟩ : ∃ k'', k' = k'' + 1 := ⟨k' - 1, by omega⟩
+    simp only [evalConst] at h ⊢
+    split at h
+    · cases h
+    · rename_i hn
+      have hn' : ¬ st'.contains n = true := by
+        simp only [List.contains_iff_mem] at hn ⊢
+        exact fun hm => hn (hst n hm)
+      rw [if_neg hn']
+      split at h
+      · cases h
+      · rename_i e he
+        refine evalConstExpr_mono F defs _ _ _ _ e (fun m _ w hw => ?_) v h
+        refine ih k'' (n :: st) (n :: st') m w (by omega) (fun x hx => ?_) hw
+        simp only [List.mem_cons] at hx ⊢
+        exact hx.imp id (hst x)
+
+theorem evalConst_fuel_mono (F : FloatOps) (defs : Nat → Option Expr) (k k' : Nat)
+    (st : List Nat) (n : Nat) (v : Value) (hk : k ≤ k')
+    (h : evalConst F defs k st n = .ok v) : evalConst F defs k' st n = .ok v :=
+  evalConst_mono F defs k k' st st n v hk (fun _ h => h) h
+
+example (F : FloatOps) : evalConst F exDefs 3 [] 2 = .ok (.int 6) := rfl
+example (F : FloatOps) : evalConst F exDefs 2 [] 2 = .err "fuel" := rfl
+example (F : FloatOps) : evalConst F exDefs 5 [] 3 = .err "cycle in const definition" := rfl
+example (F : FloatOps) : evalConst F exDefs 10 [] 2 = .ok (.int 6) :=
+  evalConst_fuel_mono F exDefs 3 10 [] 2 _ (by decide) rfl
+/-- a larger stack can turn a value into a cycle error (never into another value) -/
+example (F : FloatOps) : evalConst F exDefs 3 [0] 2 = .err "cycle in const definition" := rfl
+
+/-- The cache-hit walker `constEval` is `evalConstExpr` with the table as its oracle. -/
+theorem constEval_eq_evalConstExpr (F : FloatOps) (defs : Nat → Option Expr) (cs : Consts)
+    (st : List Nat) (e : Expr) :
+    constEval F cs e = evalConstExpr F defs
+      (fun _ n => match cs n with | some v => .ok v | none => .err "const evaluation error")
+      st e := by
+  induction e with
+  | litI x => rfl
+  | litF x => rfl
+  | litS x => rfl
+  | reg r s => rfl
+  | var n s => simp only [constEval, evalConstExpr]; cases cs n <;> rfl
+  | unop op b ih => simp only [constEval, evalConstExpr, ih]
+  | binop op a b iha ihb => simp only [constEval, evalConstExpr, iha, ihb]
+  | ternary c l r ihc ihl ihr => simp only [constEval, evalConstExpr, ihc, ihl, ihr]
+
+/-- (b) evaluation through a table that holds exactly the computed values agrees, on every
+computed value, with evaluation that recomputes each referenced const. -/
+theorem evalConst_cached (F : FloatOps) (defs : Nat → Option Expr) (fuel : Nat) (cs : Consts)
+    (S : Nat → Prop)
+    (hcs : ∀ n, S n → ∀ v, cs n = some v ↔ evalConst F defs fuel [] n = .ok v)
+    (e : Expr) (he : ∀ n ∈ vars e, S n) (v : Value) :
+    constEval F cs e = .ok v ↔
+      evalConstExpr F defs (evalConst F defs fuel) [] e = .ok v := by
+  rw [constEval_eq_evalConstExpr F defs cs []]
+  constructor
+  · refine evalConstExpr_mono F defs _ _ [] [] e (fun n hn w hw => ?_) v
+    apply (hcs n (he n hn) w).mp
+    revert hw; cases cs n <;> simp
+  · refine evalConstExpr_mono F defs _ _ [] [] e (fun n hn w hw => ?_) v
+    simp only [(hcs n (he n hn) w).mpr hw]
+
+theorem exCache_ok (F : FloatOps) (n : Nat) (hn : n = 0 ∨ n = 1) (v : Value) :
+    exCache n = some v ↔ evalConst F exDefs 2 [] n = .ok v := by
+  rcases hn with rfl | rfl
+  · have : evalConst F exDefs 2 [] 0 = .ok (.int 2) := rfl
+    rw [this]; simp [exCache]
+  · have : evalConst F exDefs 2 [] 1 = .ok (.int 3) := rfl
+    rw [this]; simp [exCache]
+
+example (F : FloatOps) :
+    evalConstExpr F exDefs (evalConst F exDefs 2) [] (.binop .mul (.var 1 none) (.var 0 none))
+      = .ok (.int 6) :=
+  (evalConst_cached F exDefs 2 exCache (fun n => n = 0 ∨ n = 1) (exCache_ok F) _
+    (by simp [vars]) _).mp rfl
+
+/-- Every variable of a successfully evaluated expression was successfully evaluated. -/
+theorem evalConstExpr_ok_vars (F : FloatOps) (defs : Nat → Option Expr)
+    (rec : List Nat → Nat → Outcome Value) (st : List Nat) (e : Expr) (v : Value)
+    (h : evalConstExpr F defs rec st e = .ok v) : ∀ n ∈ vars e, ∃ w, rec st n = .ok w := by
+  induction e generalizing v with
+  | litI x => intro n hn; simp [vars] at hn
+  | litF x => intro n hn; simp [vars] at hn
+  | litS x => intro n hn; simp [vars] at hn
+  | reg r s => cases h
+  | var m s =>
+    intro n hn
+    simp only [vars, List.mem_singleton] at hn; subst hn
+    simp only [evalConstExpr] at h
+    split at h
+    · rename_i w hw; exact ⟨w, hw⟩
+    · cases h
+    · cases h
+  | unop op b ih =>
+    simp only [evalConstExpr] at h
+    split at h
+    · rename_i bv hb; exact ih bv hb
+    · cases h
+    · cases h
+  | binop op a b iha ihb =>
+    simp only [evalConstExpr] at h
+    split at h
+    · rename_i av ha
+      split at h
+      · rename_i bv hb
+        intro n hn
+        simp only [vars, List.mem_append] at hn
+        exact hn.elim (iha av ha n) (ihb bv hb n)
+      · cases h
+      · cases h
+    · cases h
+    · cases h
+  | ternary c l r ihc ihl ihr =>
+    simp only [evalConstExpr] at h
+    split at h
+    · rename_i cv hc
+      split at h
+      · rename_i lv hl
+        split at h
+        · rename_i rv hr
+          intro n hn
+          simp only [vars, List.mem_append] at hn
+          exact hn.elim (fun h => h.elim (ihc cv hc n) (ihl lv hl n)) (ihr rv hr n)
+        · cases h
+        · cases h
+      · cases h
+      · cases h
+    · cases h
+    · cases h
+
+/-- A const that is on the evaluation stack never evaluates (cycle or fuel error). -/
+theorem evalConst_of_mem (F : FloatOps) (defs : Nat → Option Expr) (k : Nat) (st : List Nat)
+    (x : Nat) (hx : x ∈ st) (w : Value) : evalConst F defs k st x ≠ .ok w := by
+  cases k with
+  | zero => intro h; cases h
+  | succ k =>
+    have : st.contains x = true := by simpa using hx
+    simp only [evalConst, this, if_true]; intro h; cases h
+
+/-- If `n`'s definition mentions `x`, then `n` never evaluates while `x` is on the stack. -/
+theorem evalConst_dep_fail (F : FloatOps) (defs : Nat → Option Expr) (n x : Nat) (e : Expr)
+    (hd : defs n = some e) (hxe : x ∈ vars e) (k : Nat) (st : List Nat) (hx : x ∈ st)
+    (u : Value) : evalConst F defs k st n ≠ .ok u := by
+  cases k with
+  | zero => intro h; cases h
+  | succ k =>
+    simp only [evalConst, hd]
+    split
+    · intro h; cases h
+    · intro h
+      obtain ⟨w, hw⟩ := evalConstExpr_ok_vars F defs _ _ e u h x hxe
+      exact evalConst_of_mem F defs k (n :: st) x (List.mem_cons_of_mem _ hx) w hw
+
+/-- Pushing onto the stack a const `n` that depends on something already there does not change
+any computed value. -/
+theorem evalConst_stack_insert (F : FloatOps) (defs : Nat → Option Expr) (n x : Nat)
+    (hP : ∀ k st u, x ∈ st → evalConst F defs k st n ≠ .ok u)
+    (k : Nat) (st st' : List Nat) (m : Nat) (w : Value)
+    (hst : ∀ y, y ∈ st' → y ∈ st ∨ y = n) (hx : x ∈ st)
+    (h : evalConst F defs k st m = .ok w) : evalConst F defs k st' m = .ok w := by
+  induction k generalizing st st' m w with
+  | zero => cases h
+  | succ k ih =>
+    have hmn : m ≠ n := fun hmn => hP (k + 1) st w hx (hmn ▸ h)
+    simp only [evalConst] at h ⊢
+    split at h
+    · cases h
+    · rename_i hm
+      have hm' : ¬ st'.contains m = true := by
+        simp only [List.contains_iff_mem] at hm ⊢
+        exact fun hm' => (hst m hm').elim hm hmn
+      rw [if_neg hm']
+      split at h
+      · cases h
+      · rename_i em hem
+        refine evalConstExpr_mono F defs _ _ _ _ em (fun y _ u hu => ?_) w h
+        refine ih (m :: st) (m :: st') y u (fun z hz => ?_) (List.mem_cons_of_mem _ hx) hu
+        simp only [List.mem_cons] at hz ⊢
+        rcases hz with rfl | hz
+        · exact .inl (.inl rfl)
+        · exact (hst z hz).imp .inr id
+
+/-- **The evaluation stack does not matter for computed values**: evaluating const `n` (which
+pushes `n`) is the same as evaluating its definition on an empty stack. -/
+theorem evalConst_unfold_nil (F : FloatOps) (defs : Nat → Option Expr) (n : Nat) (e : Expr)
+    (hd : defs n = some e) (k : Nat) (v : Value) :
+    evalConst F defs (k + 1) [] n = .ok v ↔
+      evalConstExpr F defs (evalConst F defs k) [] e = .ok v := by
+  have hunf : evalConst F defs (k + 1) [] n
+      = evalConstExpr F defs (evalConst F defs k) [n] e := by
+    simp [evalConst, hd]
+  rw [hunf]
+  constructor
+  · refine evalConstExpr_mono F defs _ _ _ _ e (fun m _ w hw => ?_) v
+    exact evalConst_mono F defs k k [n] [] m w (Nat.le_refl _) (fun _ h => by cases h) hw
+  · refine evalConstExpr_mono F defs _ _ _ _ e (fun m hm w hw => ?_) v
+    cases k with
+    | zero => cases hw
+    | succ j =>
+      have hmn : m ≠ n := by
+        rintro rfl
+        simp only [evalConst, hd] at hw
+        obtain ⟨u, hu⟩ := evalConstExpr_ok_vars F defs _ _ e w hw m hm
+        exact evalConst_of_mem F defs j [m] m (by simp) u hu
+      simp only [evalConst] at hw ⊢
+      have c1 : ¬ ([] : List Nat).contains m = true := by simp
+      have c2 : ¬ [n].contains m = true := by simpa using hmn
+      rw [if_neg c1] at hw
+      rw [if_neg c2]
+      split at hw
+      · cases hw
+      · rename_i em hem
+        refine evalConstExpr_mono F defs _ _ _ _ em (fun y _ u hu => ?_) w hw
+        refine evalConst_stack_insert F defs n m
+          (fun k st u hx => evalConst_dep_fail F defs n m e hd hm k st hx u)
+          j [m] [m, n] y u (fun z hz => ?_) (by simp) hu
+        simpa using hz
+
+/-- Computing const `n` through a table that holds exactly the values of the consts its
+definition mentions gives what the uncached depth-first evaluation gives. -/
+theorem evalConst_cached_def (F : FloatOps) (defs : Nat → Option Expr) (fuel : Nat) (cs : Consts)
+    (S : Nat → Prop)
+    (hcs : ∀ n, S n → ∀ v, cs n = some v ↔ evalConst F defs fuel [] n = .ok v)
+    (n : Nat) (e : Expr) (hd : defs n = some e) (he : ∀ m ∈ vars e, S m) (v : Value) :
+    constEval F cs e = .ok v ↔ evalConst F defs (fuel + 1) [] n = .ok v := by
+  rw [evalConst_unfold_nil F defs n e hd, evalConst_cached F defs fuel cs S hcs e he]
+
+example (F : FloatOps) : evalConst F exDefs 3 [] 2 = .ok (.int 6) :=
+  (evalConst_cached_def F exDefs 2 exCache (fun n => n = 0 ∨ n = 1) (exCache_ok F) 2 _ rfl
+    (by simp [vars]) _).mp rfl
+
+/-! ### `_get_or_compute` with its cache
+
+`evalConstC` is `_get_or_compute` as written: first the cache lookup, then the cycle check,
+then the definition.  The cache is a parameter (the table as it is when the call is made);
+`Consistent` says it holds only values that the cache-free evaluation computes, which is
+preserved when a computed value is inserted (`consistent_insert`).  Under that invariant the
+cached and the cache-free evaluation compute the same values (`evalConstC_sound`,
+`evalConstC_complete`). -/
+
+def evalConstC (F : FloatOps) (defs : Nat → Option Expr) (cache : Consts) :
+    Nat → List Nat → Nat → Outcome Value
+  | 0, _, _ => .err "fuel"
+  | fuel + 1, stack, n =>
+    match cache n with
+    | some v => .ok v
+    | none =>
+      if stack.contains n then .err "cycle in const definition"
+      else match defs n with
+        | none => .err "const evaluation error"
+        | some e => evalConstExpr F defs (evalConstC F defs cache fuel) (n :: stack) e
+
+/-- every cached value is the value computed without a cache (within `N` levels) -/
+def Consistent (F : FloatOps) (defs : Nat → Option Expr) (N : Nat) (cache : Consts) : Prop :=
+  ∀ n v, cache n = some v → evalConst F defs N [] n = .ok v
+
+theorem consistent_empty (F : FloatOps) (defs : Nat → Option Expr) (N : Nat) :
+    Consistent F defs N (fun _ => none) := by
+  intro n v h; cases h
+
+theorem consistent_insert (F : FloatOps) (defs : Nat → Option Expr) (N : Nat) (cache : Consts)
+    (hc : Consistent F defs N cache) (n : Nat) (v : Value) (st : List Nat)
+    (hv : evalConst F defs N st n = .ok v) :
+    Consistent F defs N (fun m => if m = n then some v else cache m) := by
+  intro m w h
+  by_cases hm : m = n
+  · subst hm
+    simp only [if_true] at h; injection h with h; subst h
+    exact evalConst_mono F defs N N st [] m _ (Nat.le_refl _) (fun _ h => by cases h) hv
+  · simp only [if_neg hm] at h; exact hc m w h
+
+theorem consistent_fuel (F : FloatOps) (defs : Nat → Option Expr) (N N' : Nat) (cache : Consts)
+    (hN : N ≤ N') (hc : Consistent F defs N cache) : Consistent F defs N' cache :=
+  fun n v h => evalConst_fuel_mono F defs N N' [] n v hN (hc n v h)
+
+/-- What the cached evaluation returns is what the cache-free evaluation computes. -/
+theorem evalConstC_sound (F : FloatOps) (defs : Nat → Option Expr) (N : Nat) (cache : Consts)
+    (hc : Consistent F defs N cache) (k : Nat) (st : List Nat) (n : Nat) (v : Value)
+    (h : evalConstC F defs cache k st n = .ok v) : evalConst F defs (N + k) [] n = .ok v := by
+  induction k generalizing st n v with
+  | zero => cases h
+  | succ k ih =>
+    simp only [evalConstC] at h
+    split at h
+    · rename_i w hw
+      injection h with h; subst h
+      exact evalConst_fuel_mono F defs N _ [] n _ (by omega) (hc n _ hw)
+    · split at h
+      · cases h
+      · split at h
+        · cases h
+        · rename_i e hd
+          rw [← Nat.add_assoc, evalConst_unfold_nil F defs n e hd]
+          exact evalConstExpr_mono F defs _ _ _ _ e (fun m _ w hw => ih (n :: st) m w hw) v h
+
+/-- What the cache-free evaluation computes, the cached evaluation returns. -/
+theorem evalConstC_complete (F : FloatOps) (defs : Nat → Option Expr) (N : Nat) (cache : Consts)
+    (hc : Consistent F defs N cache) (k : Nat) (st : List Nat) (n : Nat) (v : Value)
+    (h : evalConst F defs k st n = .ok v) : evalConstC F defs cache k st n = .ok v := by
+  induction k generalizing st n v with
+  | zero => cases h
+  | succ k ih =>
+    simp only [evalConstC]
+    split
+    · rename_i w hw
+      have h1 := evalConst_mono F defs N (N + (k + 1)) [] [] n w (by omega) (fun _ h => h) (hc n w hw)
+      have h2 := evalConst_mono F defs (k + 1) (N + (k + 1)) st [] n v (by omega)
+        (fun _ h => by cases h) h
+      rw [h1] at h2; exact h2
+    · simp only [evalConst] at h
+      split at h
+      · cases h
+      · rename_i hn
+        rw [if_neg hn]
+        split at h
+        · cases h
+        · rename_i e hd
+          simp only [hd]
+          exact evalConstExpr_mono F defs _ _ _ _ e (fun m _ w hw => ih (n :: st) m w hw) v h
+
+/-- With a consistent cache, a root call (`run_rooted`: empty stack) computes `v` for some
+amount of fuel iff the cache-free evaluation does. -/
+theorem evalConstC_iff (F : FloatOps) (defs : Nat → Option Expr) (N : Nat) (cache : Consts)
+    (hc : Consistent F defs N cache) (n : Nat) (v : Value) :
+    (∃ k, evalConstC F defs cache k [] n = .ok v) ↔ (∃ k, evalConst F defs k [] n = .ok v) :=
+  ⟨fun ⟨k, h⟩ => ⟨N + k, evalConstC_sound F defs N cache hc k [] n v h⟩,
+   fun ⟨k, h⟩ => ⟨k, evalConstC_complete F defs N cache hc k [] n v h⟩⟩
+
+theorem exCache_consistent (F : FloatOps) : Consistent F exDefs 2 exCache := by
+  intro n v h
+  by_cases h0 : n = 0
+  · subst h0; exact (exCache_ok F 0 (.inl rfl) v).mp h
+  · by_cases h1 : n = 1
+    · subst h1; exact (exCache_ok F 1 (.inr rfl) v).mp h
+    · simp [exCache, h0, h1] at h
+
+/-- with `c0`, `c1` cached, `c2` needs two levels instead of three -/
+example (F : FloatOps) : evalConstC F exDefs exCache 2 [] 2 = .ok (.int 6) := rfl
+example (F : FloatOps) : evalConst F exDefs 4 [] 2 = .ok (.int 6) :=
+  evalConstC_sound F exDefs 2 exCache (exCache_consistent F) 2 [] 2 _ rfl
+example (F : FloatOps) : evalConstC F exDefs exCache 3 [] 2 = .ok (.int 6) :=
+  evalConstC_complete F exDefs 2 exCache (exCache_consistent F) 3 [] 2 _ rfl
+
 end TruthModel.C11
